@@ -117,11 +117,12 @@ class System(BigSMILESbase):
         res_id_counter = 0
         while find_mixture_start(text) >= 0:
             # text = text[text.find(".|") :].strip()
-            end_pos = text.find("|", find_mixture_start(text) + 2) + 1
+            end_pos = text.find("|", find_mixture_start(text) + 2)
             if end_pos < 0:
                 raise RuntimeError(
                     f"System {text} contains an opening '.|' for a stochastic object, but no closing '|'."
                 )
+            end_pos += 1
             self._molecules.append(Molecule(text[:end_pos], self._res_id_prefix + res_id_counter))
             res_id_counter += len(self._molecules[-1].residues)
             text = text[end_pos:].strip()
